@@ -107,8 +107,8 @@ func replayLine(c *checker, line string) {
 	switch f[0] {
 	case "H", "HT":
 		replayH(c, line)
-	case "compile-fails":
-		c16CompileFails(c)
+	case "compile-fails", "output-file-not-go", "output-file-no-extension", "thrift-root-elsewhere":
+		c16CompileFails(c) // the whole (small) family of host-refuses scenarios
 	case "C17SCN":
 		var s c17Scenario
 		if json.Unmarshal([]byte(strings.TrimPrefix(line, "C17SCN ")), &s) == nil {
